@@ -68,6 +68,10 @@ func runC10(c *Ctx) error {
 		suffragest := base.NewBaseState(base.Height(int64(height-1)), isaac.SuffrageStateKey,
 			isaac.NewSuffrageNodesStateValue(base.Height(int64(sufHeight)), svs), valuehash.RandomSHA256(), []util.Hash{valuehash.RandomSHA256()})
 		nc := c.Intn(4)
+		manyJoins := c.Chance(1, 4) // three to five candidates that all join in this block
+		if manyJoins {
+			nc = 3 + c.Intn(3)
+		}
 		var cands []c17party
 		var candStart, candDeadline []int
 		var cvs []base.SuffrageCandidateStateValue
@@ -78,6 +82,9 @@ func runC10(c *Ctx) error {
 			dl := height - 1 + c.Intn(4)
 			if dl < st {
 				dl = st
+			}
+			if manyJoins && dl < height {
+				dl = height + 1
 			}
 			candStart = append(candStart, st)
 			candDeadline = append(candDeadline, dl)
@@ -107,6 +114,19 @@ func runC10(c *Ctx) error {
 		}
 		outsider := w.party()
 		var ops []c10op
+		if manyJoins {
+			for _, ci := range c.Perm(nc) {
+				cand := cands[ci]
+				op := isaacoperation.NewSuffrageJoin(isaacoperation.NewSuffrageJoinFact(util.UUID().Bytes(), cand.addr, base.Height(int64(candStart[ci]))))
+				_ = op.NodeSign(cand.priv, hNetworkID, cand.addr)
+				signs := []string{fmt.Sprintf("%d.%d", cand.id, cand.key)}
+				for _, m := range members {
+					_ = op.NodeSign(m.priv, hNetworkID, m.addr)
+					signs = append(signs, fmt.Sprintf("%d.%d", m.id, m.key))
+				}
+				ops = append(ops, c10op{fmt.Sprintf("j:%d:%d:%s", cand.id, candStart[ci], strings.Join(signs, "/")), op})
+			}
+		}
 		nops := 1 + c.Intn(9)
 		for j := 0; j < nops; j++ {
 			switch k := c.Intn(14); {
@@ -245,7 +265,20 @@ func runC10(c *Ctx) error {
 			}
 		}
 		th := base.Threshold(float64(t10) / 10)
+		// the completion order of the parallel phase is stirred through the processors' process-constraint hook:
+		// every operation sleeps a little, differently in every run
+		runNo := 0
 		run := func(workers int64) (string, string, error) {
+			runNo++
+			seed := uint64(i*1000 + runNo)
+			delay := func(base.Height, base.GetStateFunc) (base.OperationProcessorProcessFunc, error) {
+				return func(_ context.Context, op base.Operation, _ base.GetStateFunc) (base.OperationProcessReasonError, error) {
+					b := op.Hash().Bytes()
+					x := (uint64(b[0])<<8 | uint64(b[1])) * (seed*2654435761 + 1)
+					time.Sleep(time.Duration((x>>7)%1500) * time.Microsecond)
+					return nil, nil
+				}, nil
+			}
 			// the writer's save worker keeps writing states after Process has returned: the database is left to the
 			// garbage collector, never closed under it
 			bwdb := isaacdatabase.NewLeveldbBlockWrite(base.Height(int64(height)), leveldbstorage.NewMemStorage(), env.encs, env.enc)
@@ -261,15 +294,15 @@ func runC10(c *Ctx) error {
 			args.NewOperationProcessorFunc = func(h base.Height, ht hint.Hint, gs base.GetStateFunc) (base.OperationProcessor, error) {
 				switch ht.Type() {
 				case isaacoperation.SuffrageCandidateHint.Type():
-					return isaacoperation.NewSuffrageCandidateProcessor(h, gs, nil, nil, policy.SuffrageCandidateLifespan())
+					return isaacoperation.NewSuffrageCandidateProcessor(h, gs, nil, delay, policy.SuffrageCandidateLifespan())
 				case isaacoperation.SuffrageJoinHint.Type():
-					return isaacoperation.NewSuffrageJoinProcessor(h, th, gs, nil, nil)
+					return isaacoperation.NewSuffrageJoinProcessor(h, th, gs, nil, delay)
 				case isaac.SuffrageExpelOperationHint.Type():
-					return isaacoperation.NewSuffrageExpelProcessor(h, gs, nil, nil)
+					return isaacoperation.NewSuffrageExpelProcessor(h, gs, nil, delay)
 				case isaacoperation.SuffrageDisjoinHint.Type():
-					return isaacoperation.NewSuffrageDisjoinProcessor(h, gs, nil, nil)
+					return isaacoperation.NewSuffrageDisjoinProcessor(h, gs, nil, delay)
 				case isaacoperation.NetworkPolicyHint.Type():
-					return isaacoperation.NewNetworkPolicyProcessor(h, th, gs, nil, nil)
+					return isaacoperation.NewNetworkPolicyProcessor(h, th, gs, nil, delay)
 				}
 				return nil, nil
 			}
